@@ -126,6 +126,28 @@ func (s YAMLSyntax) Get(path resource.PropertyPath) (_ *yaml.Node, ok bool) {
 	}
 }
 
+// fixKeyComment moves the line comment of a mapping key to its value unless the value is a non-empty block
+// collection: only then can yaml.v3 write the comment on the key's line ("key: # comment"). Otherwise it would
+// write the comment after the next entry, or, for an empty collection, produce a document that does not parse.
+func fixKeyComment(key, value *yaml.Node) {
+	if key.LineComment == "" {
+		return
+	}
+	if value.Kind == yaml.SequenceNode || value.Kind == yaml.MappingNode {
+		if len(value.Content) != 0 && value.Style&yaml.FlowStyle == 0 {
+			return
+		}
+		if len(value.Content) == 0 {
+			// An empty collection is always written in flow style.
+			value.Style |= yaml.FlowStyle
+		}
+	}
+	if value.LineComment == "" {
+		value.LineComment = key.LineComment
+	}
+	key.LineComment = ""
+}
+
 func (s YAMLSyntax) Set(prefix, path resource.PropertyPath, new yaml.Node) (*yaml.Node, error) {
 	if s.Kind == yaml.DocumentNode {
 		return YAMLSyntax{Node: s.Content[0]}.Set(prefix, path, new)
@@ -193,24 +215,29 @@ func (s YAMLSyntax) Set(prefix, path resource.PropertyPath, new yaml.Node) (*yam
 			return nil, fmt.Errorf("%v: key for a map must be a string", prefix)
 		}
 
-		var valueNode *yaml.Node
+		var keyNode, valueNode *yaml.Node
 		for i := 0; i < len(s.Content); i += 2 {
-			keyNode, value := s.Content[i], s.Content[i+1]
-			if keyNode.Value == key {
-				valueNode = value
+			k, value := s.Content[i], s.Content[i+1]
+			if k.Value == key {
+				keyNode, valueNode = k, value
 				break
 			}
 		}
 		if valueNode == nil {
-			s.Content = append(s.Content, &yaml.Node{
+			keyNode = &yaml.Node{
 				Kind:  yaml.ScalarNode,
 				Value: key,
 				Tag:   "!!str",
-			})
+			}
+			s.Content = append(s.Content, keyNode)
 			s.Content = append(s.Content, &yaml.Node{})
 			valueNode = s.Content[len(s.Content)-1]
 		}
-		return YAMLSyntax{Node: valueNode}.Set(prefix, path[1:], new)
+		n, err := YAMLSyntax{Node: valueNode}.Set(prefix, path[1:], new)
+		if err == nil {
+			fixKeyComment(keyNode, valueNode)
+		}
+		return n, err
 	default:
 		return nil, fmt.Errorf("%v: expected an array or an object", prefix)
 	}
@@ -263,8 +290,12 @@ func (s YAMLSyntax) Delete(prefix, path resource.PropertyPath) error {
 			// The key is not present, so there is nothing to delete.
 			return nil
 		}
-		valueNode := s.Content[i+1]
-		return YAMLSyntax{Node: valueNode}.Delete(prefix, path[1:])
+		keyNode, valueNode := s.Content[i], s.Content[i+1]
+		err := YAMLSyntax{Node: valueNode}.Delete(prefix, path[1:])
+		if err == nil {
+			fixKeyComment(keyNode, valueNode)
+		}
+		return err
 	default:
 		return fmt.Errorf("%v: expected an array or an object", prefix)
 	}
